@@ -136,7 +136,11 @@ def _agent_loop(rf, wf):
                     if rq.get("as_variables"):
                         # a caller may pass Variable objects in a list of its own ...
                         vs = [p.Variable(v) for v in vs]
-                    compiled[rq["c"]] = pymbolic.compile(o, vs)
+                    if rq.get("with_context"):
+                        from dst.usertypes import CompiledWithContext
+                        compiled[rq["c"]] = CompiledWithContext(o, vs)
+                    else:
+                        compiled[rq["c"]] = pymbolic.compile(o, vs)
                     if rq.get("as_variables") and rq.get("grow_list_after"):
                         # ... and go on using (growing) that list for its next kernel
                         vs.append(p.Variable("later_arg"))
